@@ -15,10 +15,10 @@ def _slot_seen_empty(ctx, p, fld):
     return any(k[0] == "discr" and str(v).lstrip("*") == "None" and _is_slot(ctx, k[1], fld) for (k, v) in p.decisions)
 
 
-def st1_stop_is_close_plus_join(ctx, rep, entry="stop"):
+def st1_stop_is_close_plus_join(ctx, rep, entry="stop", body=None):
     R = "ST1"
     A = ctx.A
-    stop = A.method("StoreImpl", entry)
+    stop = body if body is not None else A.method("StoreImpl", entry)
     rep.note_fn(stop.path)
     takes = close_body(ctx)
     take_bodies = {s.body.path for s in takes}
@@ -69,10 +69,14 @@ def st1_stop_is_close_plus_join(ctx, rep, entry="stop"):
         else:
             rep.check(not joins, R, "no-join-without-pool:" + fn, ctx.where(stop), "nothing to join when the pool is already gone (second stop returns immediately)", "join on a path without a pool")
     rep.floor(R, "paths through %s" % entry, n, 2, ctx.where(stop))
-    if entry == "stop":
+    if entry == "stop" and body is None:
         try:
             ts = A.method("StoreImpl", "stop", "Store")
-            rep.check(stop.path in ctx.sync_reach([ts]), R, "trait-stop-delegates", ctx.where(ts), "Store::stop runs StoreImpl::stop", "Store::stop does not reach StoreImpl::stop")
+            if stop.path in ctx.sync_reach([ts]):
+                rep.ok(R, "trait-stop-delegates", ctx.where(ts), "Store::stop runs StoreImpl::stop")
+            else:
+                # a trait method with a body of its own has to be a stop() in its own right
+                st1_stop_is_close_plus_join(ctx, rep, entry="stop", body=ts)
         except AnchorMissing as e:
             rep.anchor_missing(R, e.what)
 
